@@ -103,6 +103,12 @@ def main():
         except common.subprocess.TimeoutExpired:
             print("harness timeout in correspondence", file=sys.stderr)
             return 2
+        except Exception as e:
+            # the correspondence run could not be completed on this tree (it completes on the tree the
+            # framework was built for): the tie between model and code no longer checks
+            ctx.notes.append("correspondence crashed: " + traceback.format_exc()[-2500:])
+            broken.append("correspondence run could not be completed: %r" % (e,))
+            ctx.oblige("correspondence:completed", False, repr(e)[:300])
         suites = sorted({m["suite"] for m in ctx.mismatches})
         for s in getattr(mod, "SUITES", []):
             ctx.oblige("correspondence:" + s, s not in suites)
@@ -116,7 +122,15 @@ def main():
             ctx.oblige("correspondence:" + s, False, "model not built")
 
     # ---------------- D: oracle on the real code ----------------------------------------
-    mod.oracle(ctx)
+    try:
+        mod.oracle(ctx)
+    except common.subprocess.TimeoutExpired:
+        print("harness timeout in oracle", file=sys.stderr)
+        return 2
+    except Exception as e:
+        ctx.notes.append("oracle crashed: " + traceback.format_exc()[-2500:])
+        broken.append("property oracle could not be completed: %r" % (e,))
+        ctx.oblige("oracle:completed", False, repr(e)[:300])
     if broken and not new_failures(ctx, pid):
         # search mode: bigger budget, seeded by the disagreeing inputs
         ctx.search_mode = True
